@@ -154,7 +154,7 @@ let () =
     | ["M"; w; impl; status] ->
         let s = get () in
         incr k;
-        let (st', o) = import_batch !params batch s.xs_node s.xs_st (ni w) in
+        let (st', o) = import_batch fx !params batch s.xs_node s.xs_st (ni w) in
         Printf.printf "M\t%s\t%d\t%s\t%s\t%s\t%s\t%s\n" !hist !k w impl status
           (match o with IOk -> "ok" | IRetry -> "retry" | IAbandon -> "abandon")
           (show_status (status_of st' (ni w)));
